@@ -25,6 +25,29 @@ type (
 	namedBytes  []byte
 )
 
+// lineHash: a deterministic function of the protocol line (replays agree with the run).
+func lineHash(line string) uint32 {
+	h := uint32(2166136261)
+	for i := 0; i < len(line); i++ {
+		h = (h ^ uint32(line[i])) * 16777619
+	}
+	return h ^ h>>15
+}
+
+// crossRomanFormats: output settings under which the roman parser / validity check are also run (they must not care).
+var crossRomanFormats = []roman.Format{0, roman.FormatLowerCase, roman.FormatLong, roman.FormatLong | roman.FormatLowerCase, roman.FormatLong4, roman.FormatLong9x | roman.FormatLowerCase, -1, 1 << 20}
+
+// setSizeSwitches sets the three marshal switches of package size (bits 1, 2, 4 of cfg) and returns the restore function.
+// Parsers, Shorten and the renderings of C13 are specified without them: every such op runs under a setting chosen by
+// its own line, with the expectation unchanged.
+func setSizeSwitches(cfg int) func() {
+	o1, o2, o3 := size.DisableMarshalTextUnit, size.DisableMarshalJSONStringForm, size.DisableMarshalJSONObjectForm
+	size.DisableMarshalTextUnit, size.DisableMarshalJSONStringForm, size.DisableMarshalJSONObjectForm = cfg&1 != 0, cfg&2 != 0, cfg&4 != 0
+	return func() {
+		size.DisableMarshalTextUnit, size.DisableMarshalJSONStringForm, size.DisableMarshalJSONObjectForm = o1, o2, o3
+	}
+}
+
 func atoi(s string) int {
 	n, err := strconv.Atoi(s)
 	if err != nil {
@@ -215,9 +238,10 @@ func execOp(c *Ctx, line string) (out string) {
 		return strings.Join([]string{hx(mt), hx([]byte(n.String())), hx([]byte(fmt.Sprintf("%R", n))), hx([]byte(fmt.Sprintf("%r", n))),
 			hx([]byte(fmt.Sprintf("%L", n))), hx([]byte(fmt.Sprintf("%l", n))), hx([]byte(fmt.Sprintf("%s", n)))}, " ")
 	case "roman.parse":
-		old := roman.MaxInputLength
+		old, oldDF := roman.MaxInputLength, roman.DefaultFormat
 		roman.MaxInputLength = atoi(f[1])
-		defer func() { roman.MaxInputLength = old }()
+		roman.DefaultFormat = crossRomanFormats[int(lineHash(line))%len(crossRomanFormats)]
+		defer func() { roman.MaxInputLength, roman.DefaultFormat = old, oldDF }()
 		in := mustHex(f[3])
 		r := roman.Rule(atoi(f[2]))
 		n1, e1 := roman.DefaultParser(string(in), r)
@@ -255,9 +279,10 @@ func execOp(c *Ctx, line string) (out string) {
 		}
 		return o1
 	case "roman.valid":
-		old := roman.MaxInputLength
+		old, oldDF := roman.MaxInputLength, roman.DefaultFormat
 		roman.MaxInputLength = atoi(f[1])
-		defer func() { roman.MaxInputLength = old }()
+		roman.DefaultFormat = crossRomanFormats[int(lineHash(line))%len(crossRomanFormats)]
+		defer func() { roman.MaxInputLength, roman.DefaultFormat = old, oldDF }()
 		in := mustHex(f[3])
 		r := roman.Rule(atoi(f[2]))
 		e1 := roman.Valid(string(in), r)
@@ -322,6 +347,15 @@ func execOp(c *Ctx, line string) (out string) {
 			if ou := semOutcome(u, eu); ou != o1 || !typed {
 				c.Fail("C03.entry", line, "UnmarshalText: %s (typed %v), DefaultParser: %s", ou, typed, o1)
 				return "MISMATCH-entry " + o1 + " / " + ou
+			}
+			// the same onto a variable that already holds a version: a successful call yields exactly the decoded value
+			if e1 == nil && c.Owns("C03.overwrite") {
+				for _, w := range semLoadedReceivers {
+					if err := w.UnmarshalText(append([]byte(nil), in...)); err != nil || w != v1 {
+						c.Fail("C03.overwrite", line, "UnmarshalText onto a receiver holding a version gives %+v %v, the text denotes %+v", w, err, v1)
+						return "MISMATCH-overwrite " + o1 + " / " + semOutcome(w, err)
+					}
+				}
 			}
 		}
 		return o1
@@ -445,13 +479,16 @@ func execOp(c *Ctx, line string) (out string) {
 		return "bad-op"
 	// ------------------------------------------------------------------ size
 	case "size.shorten":
+		defer setSizeSwitches(int(lineHash(line)) & 7)()
 		v, u := size.Size(atou(f[1])).Shorten()
 		return fmt.Sprintf("%d %s", v, hx([]byte(u)))
 	case "size.paths":
+		defer setSizeSwitches(int(lineHash(line)) & 7)()
 		z := size.Size(atou(f[1]))
 		return strings.Join([]string{hx([]byte(z.String())), hx([]byte(z.PrettyString())), hx([]byte(z.PrettyHTML())), hx([]byte(z.BytesString())),
 			hx([]byte(z.BytesJSONNumber()))}, " ")
 	case "size.format":
+		defer setSizeSwitches(int(lineHash(line)) & 7)()
 		b, err := size.DefaultFormatter(mustHex(f[3]), size.Size(atou(f[1])), size.Format(atoi(f[2])))
 		if err != nil {
 			return "err formatter"
@@ -483,6 +520,7 @@ func execOp(c *Ctx, line string) (out string) {
 		o1, o2 := size.MaxInputLength, size.MaxObjectKeys
 		size.MaxInputLength, size.MaxObjectKeys = atoi(f[1]), atoi(f[2])
 		defer func() { size.MaxInputLength, size.MaxObjectKeys = o1, o2 }()
+		defer setSizeSwitches(int(lineHash(line)) & 7)()
 		in := mustHex(f[4])
 		r := size.Rule(atoi(f[3]))
 		s1, e1 := size.DefaultParser(string(in), r)
@@ -532,8 +570,10 @@ func execOp(c *Ctx, line string) (out string) {
 		}
 		return out1
 	case "size.new":
+		defer setSizeSwitches(int(lineHash(line)) & 7)()
 		return sizeNew(f[1], f[2], string(mustHex(f[3])))
 	case "size.bytes":
+		defer setSizeSwitches(int(lineHash(line)) & 7)()
 		return sizeBytes(f[1], size.Size(atou(f[2])))
 	case "json.tokens":
 		return jsonTokens(mustHex(f[1]))
@@ -711,8 +751,14 @@ func semParse[T ~string | ~[]byte](entry string, in T) (sem.Ver, error) {
 	case "DefaultNoTag":
 		return sem.DefaultParser(in, sem.RuleDisableTag)
 	}
+	if strings.HasPrefix(entry, "Default:") { // DefaultParser under an arbitrary rule value (a flag set)
+		return sem.DefaultParser(in, sem.Rule(atoi(entry[8:])))
+	}
 	panic("bad entry " + entry)
 }
+
+// semLoadedReceivers: variables that already hold a version (every field non-zero; the zero version 0.0.0 with texts)
+var semLoadedReceivers = []sem.Ver{{Major: 9, Minor: 8, Patch: 7, PreRelease: "old.1", Build: "old.b"}, {PreRelease: "0", Build: "0"}, {Major: 1<<64 - 1, Minor: 1, Build: "only.build"}, {Patch: 3, PreRelease: "only-pre"}}
 
 func semVal(v sem.Ver) string {
 	return fmt.Sprintf("ok %d %d %d %s %s", v.Major, v.Minor, v.Patch, hx([]byte(v.PreRelease)), hx([]byte(v.Build)))
